@@ -37,6 +37,10 @@ impl ECDSA {
     }
 
     pub fn verify_hashbuf(digest: &[u8], pub_key: &PublicKey, signature: &Signature) -> Result<bool, BSVErrors> {
+        if digest.len() != 32 {
+            return Err(BSVErrors::CustomECDSAError(format!("Digest must be 32 bytes long, got {} bytes", digest.len())));
+        }
+
         ECDSA::verify_hashbuf_impl(*GenericArray::from_slice(digest), pub_key, signature)
     }
 }
